@@ -17,7 +17,8 @@ names = sys.argv[1:] or sorted(os.path.basename(d) for d in glob.glob(os.path.jo
 bad = []
 for name in names:
     d = os.path.join(VERIF, 'seeded', name)
-    prop = json.load(open(os.path.join(d, 'meta.json')))['property']
+    meta = json.load(open(os.path.join(d, 'meta.json')))
+    prop = meta.get('reclassified') or meta['property']      # a change that breaks another property than the one its author named
     wt = tempfile.mkdtemp(prefix='seedrg-')
     os.rmdir(wt)
     sh('git -C /repo worktree add -q -f %s HEAD' % wt)
